@@ -196,7 +196,8 @@ def run_case(case, R):
         R.label('point:' + ps['k'], 'truth:' + ('inside' if truth is not None else (
             'outside-bbox' if not (X.bb[0] <= p[0] <= X.bb[2] and X.bb[1] <= p[1] <= X.bb[3]) else 'outside-in-bbox')))
         npts += 1
-        locate_checks(X, R, p, truth, aid)
+        ok = locate_checks(X, R, p, truth, aid)
+        if ok is False: continue        # column location already failed for this point; blocks would only repeat it
         for zs in case['zs']:
             block_checks(X, R, p, truth, zs, aid)
     # ------------------------------------------------------------ lines
@@ -261,9 +262,12 @@ def locate_checks(X, R, p, truth, aid):
     bb = X.bb
     exp = name_of(truth)
 
+    state = {'qtree_ok': True}
+
     def judge(kind, got, expected=exp, note=''):
         gn = name_of(got)
         if gn == expected: return
+        if kind == 'qtree': state['qtree_ok'] = False
         what = 'missed' if gn is None else ('phantom' if expected is None else 'wrong')
         R.fail('locate:%s:%s' % (kind, what), 'point %r: %s%s returned %r, the winding-number search over all columns gives %r' % (
             (p[0], p[1]), kind, note, gn, expected))
@@ -276,7 +280,7 @@ def locate_checks(X, R, p, truth, aid):
             if got != (c is truth):
                 R.fail('contains_point:%s' % ('phantom' if got else 'missed'),
                        'column %r contains_point(%r) = %r, winding number says %r' % (c.name, (p[0], p[1]), got, c is truth))
-                break
+                return False        # every search path relies on this primitive: one root cause, one signature
     # plain
     with R.lib('locate:plain'):
         judge('plain', g.column_containing_point(pos)); nsub += 1
@@ -336,15 +340,18 @@ def locate_checks(X, R, p, truth, aid):
     far = far_column(X, p)
     with R.lib('locate:combination'):
         judge('combination', g.column_containing_point(pos, guess=far, bounds=rect), note='(far guess + rectangle)')
-        judge('combination', g.column_containing_point(pos, guess=guesses[0][1], qtree=X.qt), note='(guess + quadtree)')
-        judge('combination', g.column_containing_point(pos, bounds=encl, qtree=X.qt), note='(polygon + quadtree)')
+        if state['qtree_ok']:       # (a quadtree failure is reported once, under locate:qtree)
+            judge('combination', g.column_containing_point(pos, guess=guesses[0][1], qtree=X.qt), note='(guess + quadtree)')
+            judge('combination', g.column_containing_point(pos, bounds=encl, qtree=X.qt), note='(polygon + quadtree)')
         if sup:
             judge('combination', g.column_containing_point(pos, columns=sup, guess=X.cols[aid['guess'] % X.n]), note='(superset + drawn guess)')
-            judge('combination', g.column_containing_point(pos, columns=sup, guess=far, bounds=rect, qtree=X.qt), note='(all aids)')
+            if state['qtree_ok']:
+                judge('combination', g.column_containing_point(pos, columns=sup, guess=far, bounds=rect, qtree=X.qt), note='(all aids)')
         if tri_ok:
             judge('combination', g.column_containing_point(pos, guess=guesses[0][1], bounds=tri_np), tri_exp, note='(guess + triangle)')
         nsub += 6
     R.count(nsub)
+    return state['qtree_ok']
 
 
 def block_checks(X, R, p, truth, zs, aid):
@@ -530,6 +537,7 @@ def track_checks(X, R, ln, ls):
                         lambda: '%s: exit %r of %r and entry %r of %r' % (desc, pout_prev, X.cols[pi_].name, pin, X.cols[i].name))
         prev = (i, pout)
     if worst > 0: R.label('track:deviation/tolerance:%s' % ('<1e-3' if worst < 1e-3 * tolp else ('<0.02' if worst < 0.02 * tolp else ('<0.5' if worst < 0.5 * tolp else '>=0.5'))))
+    if any(li.count(i) == 0 for i in must): return        # the lengths cannot add up either: reported once, as track:misses-column
     inside = sum(length.values())
     dropped = sum(length[i] for i in clips if i not in li)
     total = sum(geom_ref.dist(pin, pout) for _i, pin, pout in listed)
